@@ -39,7 +39,7 @@ H = ["k", "j", "v", "id"]
 def case(draw, tier):
     maxrows = 7 if tier == "quick" else 16
     op = draw(st.sampled_from(OPS))
-    p = draw(gen.pool(KEYCELL, 2, 4))
+    p = draw(gen.twinned_pool(KEYCELL, 2, 4))
     kc = st.sampled_from(p)
     vc = st.one_of(st.integers(0, 3), st.none(), st.sampled_from(p))
     rect_only = op in ("mergeduplicates", "merge", "gcdv")
